@@ -94,7 +94,16 @@ func runC01(r *Run) {
 		}
 	}
 	if faultW == 0 {
-		r.Check(r.Stats["node.exit"] == 0, "c01.exit", "a node exited in a fault-free run")
+		// ... unless a primary's lease ran out under it: the seeded scheduler can
+		// keep the renewal goroutine waiting for longer than the time to live (a
+		// slow node, although no fault was asked for), and a primary that loses
+		// write access between SQLite's WAL commit frame and CommitWAL exits by
+		// design (the frames are in the log, the transaction cannot be published).
+		if r.Stats["lease.session-expired"] == 0 {
+			r.Check(r.Stats["node.exit"] == 0, "c01.exit", "a node exited in a fault-free run")
+		} else if r.Stats["node.exit"] > 0 {
+			r.Count("c01.exit-after-lease-expiry")
+		}
 	}
 	_ = exitsBefore
 	if !r.Failed() && cs.quiesce() {
